@@ -2,7 +2,7 @@
    Every entry takes the flattened integer arguments of a case line and returns the flattened result. *)
 From Coq Require Import ZArith List String.
 From TV Require Import Codec.Flat.
-From TV Require Import Base.Int32 Model.Numeric Model.Decomp Model.Lwe Model.Poly Model.Tlwe Model.KeySwitch Model.Tgsw Model.Bootstrap Model.Gates Model.Encrypt Model.Ledger.
+From TV Require Import Base.Int32 Model.Numeric Model.Decomp Model.Lwe Model.Poly Model.Tlwe Model.KeySwitch Model.Tgsw Model.Bootstrap Model.Gates Model.Encrypt Model.Ledger Model.KaraMem.
 Import ListNotations.
 Local Open Scope string_scope.
 
@@ -14,7 +14,7 @@ Definition table : list (string * (list Z -> list Z)) :=
     ("lwephase", entry_lwephase); ("lwelin", entry_lwelin); ("poly", entry_poly); ("tlwe", entry_tlwe);
     ("keyswitch", entry_keyswitch); ("ksdigits", entry_ksdigits);
     ("tgsw", entry_tgsw); ("boot", entry_boot); ("bootp", entry_bootp);
-    ("gatelin", entry_gatelin); ("decbit", entry_decbit); ("encbit", entry_encbit); ("netlist", entry_netlist); ("enc", entry_enc); ("ledger", entry_ledger) ].
+    ("gatelin", entry_gatelin); ("decbit", entry_decbit); ("encbit", entry_encbit); ("netlist", entry_netlist); ("enc", entry_enc); ("ledger", entry_ledger); ("karamem", entry_karamem) ].
 
 Fixpoint lookup (name : string) (t : list (string * (list Z -> list Z))) : option (list Z -> list Z) :=
   match t with
